@@ -43,6 +43,23 @@ def tagsSorted (m : MsgV) : Nat → Nat → Option Nat → Bool
        | none => tagsSorted m k (i + 1) (some t))
     | _ => false
 
+/-- is `tag` one of the tags of the table? -/
+def tagPresent (m : MsgV) (tag : Nat) : Nat → Nat → Bool
+  | 0, _ => false
+  | k+1, i =>
+    match m.tagAt i with
+    | .ok (some t) => t == tag || tagPresent m tag k (i + 1)
+    | _ => tagPresent m tag k (i + 1)
+
+/-- "!GHOST<tag>" when a tag that is not in the table is reported present or readable -/
+def ghostProbe (m : MsgV) (tag : Nat) : String :=
+  if tagPresent m tag m.fields 0 then "" else
+  match m.hasField tag, m.field tag with
+  | .ok false, .ok [] => ""
+  | .panic, _ => "PANIC"
+  | _, .panic => "PANIC"
+  | _, _ => "!GHOST" ++ toString tag
+
 mutual
 def walk (F : FloatOps) : Nat → Bytes → String
   | 0, _ => "FUEL"
@@ -107,7 +124,15 @@ def walkFields (F : FloatOps) (fuel : Nat) (m : MsgV) (sorted : Bool) : Nat → 
            | _, _, _ => "PANIC")
         else ""
       | _ => ""
-    tg ++ "=" ++ f ++ byTag ++ "," ++ walkFields F fuel m sorted k (i + 1)
+    -- a tag that is not in the table must read as absent (probe the aliases t+256 and t+65280 of
+    -- the first fields of small tables)
+    let ghost := match m.tagAt i with
+      | .ok (some t) =>
+        if sorted && i < 8 && m.fields ≤ 64 then
+          ghostProbe m (t + 256) ++ ghostProbe m ((t + 65280) % 65536)
+        else ""
+      | _ => ""
+    tg ++ "=" ++ f ++ byTag ++ ghost ++ "," ++ walkFields F fuel m sorted k (i + 1)
 end
 
 end SpecVerif
